@@ -13,7 +13,10 @@ def handlers : List (String × (String → Json → Except String Json)) := [
   ("grid", Aeic.Grid.handle),
   ("c01", Aeic.Emissions.handle),
   ("c14", Aeic.Query.handle),
-  ("c12", Aeic.EI.handle)
+  ("c12", Aeic.EI.handle),
+  ("c03", Aeic.StoreCodec.handle),
+  ("geo", Aeic.Geo.handle),
+  ("wind", Aeic.Wind.handle)
 ]
 
 def dispatch (op : String) (j : Json) : Except String Json :=
